@@ -27,13 +27,18 @@ ASSUMPTIONS = ["probabilities are dyadic rationals, so the float the implementat
 TRUSTED = ["float -> exact Fraction conversion of the implementation's outputs before c14_check"]
 TECHNIQUE = "Coq proof (finite sums over Q, handshake double counting) + model/implementation correspondence"
 LEVEL_TEXT = (
-    "General theorems in coq/Props/C14.v: q_i(k - e_i) = k_i P(k)/<k_i> and sum q_i = 1; inversion of the forward "
-    "image returns P(k)/sum_{k'<>0}P(k') on exactly the non-zero keys for every choice of common key and every list "
-    "of distinct names; row sums of a matrix over its key halves; for a clean annotated network the row sums of the "
-    "C13 matrices equal the excess distributions of the network's empirical jdd (handshake); mean = P-weighted mean. "
-    "The checkers are proved equivalent to the Prop-level specifications and run on the implementation's outputs.")
+    "General theorems in coq/Props/C14.v (no size bound): q_i(k - e_i) = k_i P(k)/<k_i>, its key set, sum q_i = 1; "
+    "C14_inverse: forward-then-invert returns P(k)/sum_{k'<>0}P(k') on exactly the non-zero keys for EVERY choice "
+    "of the common key and every list of distinct names; row sums of a matrix over its key halves (and equality "
+    "with the full row sum under the coverage condition); empirical jdd of a network; mean = P-weighted mean; for a "
+    "clean annotated network the row sum of the C13 matrix has the closed form (a_i+1)#{v: jd v = a+e_i}/sum_v jd_v[i] "
+    "and equals the excess distribution of the empirical jdd pointwise (handshake double counting). PARTIAL: the "
+    "dict-level network statement C14_network_full (excess_from_ejk o get_ejks returns exactly these dicts) is kept "
+    "as a Definition; proved is C14_network_partial (the pointwise identity) and the checker equivalence. All seven "
+    "checkers are proved equivalent to the Prop-level specifications and run on the implementation's outputs.")
 LEVEL_NOTE = ("Trusted: Coq kernel; extraction + OCaml driver + Python harness; float outputs judged with tolerance "
-              "1e-9. Duplicate topology names are outside the theorems (distinct names are a hypothesis). No axioms.")
+              "1e-9. Duplicate topology names are outside the theorems (distinct names are a hypothesis). The "
+              "plumbing part of C14_network_full is covered by the correspondence + c14_check mode 4 only. No axioms.")
 
 EPS = [1, 10 ** 9]
 NAMES = c13.NAMES + ["3-clique-red", "", "k", "2-clique-green"]
